@@ -1,7 +1,7 @@
 /* C20 bounded composition: real _mtbl_writer_write_block + real _write_all + real mtbl_varint_encode64 over a
  * write(2) model that fragments: up to VG_FAULTS events, each EINTR or a short write of any length >= 1.
  * The byte stream that reaches the descriptor must equal varint(len) || crc || payload for every fragmentation. */
-#include "/repo/mtbl/writer.c"
+#include "mtbl/writer.c"
 #include "spec/ghost.h"
 
 #define VG_STREAM_MAX 32
